@@ -661,14 +661,27 @@ Proof.
     exfalso. eapply Hn. reflexivity.
 Qed.
 
-Theorem tail_lemma a : good a -> allowed (is_funrep a) (spec_tail (norm a)) (ModuleTail a).
+Theorem tail_partial_lemma a : good a -> (forall s, a <> VStr s) ->
+  allowed (is_funrep a) (spec_tail (norm a)) (ModuleTail a).
 Proof.
-  intros G. destruct (seq_arg_of a) as [xs ->|kvs ->|Hn Ht].
+  intros G Hs. destruct (seq_arg_of a) as [xs ->|kvs ->|Hn Ht].
   - cbn. destruct xs as [|x xs]; cbn; [reflexivity|].
     apply allowed_ok; [reflexivity|]. apply good_tup. intros y Hy. apply (proj1 (good_tup _) G). cbn; auto.
   - apply (funrep_typeerr ModuleTail); [reflexivity|eexists; reflexivity].
-  - unfold spec_tail, on_seq. destruct (norm a) eqn:E; try (destruct a; try reflexivity; exfalso; eapply Ht; reflexivity).
-    exfalso. eapply Hn. reflexivity.
+  - unfold spec_tail. destruct (norm a) eqn:E; try (destruct a; try reflexivity; exfalso; eapply Ht; reflexivity).
+    + destruct a; cbn in E; try discriminate. * exfalso. eapply Hs. reflexivity.
+      * pose proof (mk_fun_kind (sort_dedup kv_cmp (map (canon_kv norm) kvs))) as H. rewrite E in H. contradiction.
+    + exfalso. eapply Hn. reflexivity.
+Qed.
+
+Definition tail_full_statement : Prop :=
+  forall a, good a -> allowed (is_funrep a) (spec_tail (norm a)) (ModuleTail a).
+
+Theorem tail_string_refuted_lemma : ~ tail_full_statement.
+Proof.
+  intros H. specialize (H (VStr [97%N; 98%N])).
+  assert (G : good (VStr [97%N; 98%N])) by (split; cbn; auto; repeat split; reflexivity).
+  specialize (H G). cbn in H. destruct H as [(v' & E & _)|[_ (kvs & E)]]; discriminate.
 Qed.
 
 Theorem append_lemma a x : good a -> good x -> allowed (is_funrep a) (spec_append (norm a) (norm x)) (ModuleAppend a x).
@@ -730,10 +743,10 @@ Proof. intros H. rewrite <- (firstn_skipn n l). apply in_or_app. auto. Qed.
 Lemma skipn_In' {A} n (l : list A) x : In x (skipn n l) -> In x l.
 Proof. intros H. rewrite <- (firstn_skipn n l). apply in_or_app. auto. Qed.
 
-Theorem subseq_lemma a m n : good a ->
+Theorem subseq_partial_lemma a m n : good a -> (forall s, a <> VStr s) ->
   allowed (is_funrep a) (spec_subseq (norm a) (norm m) (norm n)) (ModuleSubSeq a m n).
 Proof.
-  intros G. destruct (seq_arg_of a) as [xs ->|kvs ->|Hn Ht].
+  intros G Hstr. destruct (seq_arg_of a) as [xs ->|kvs ->|Hn Ht].
   - destruct (is_num m) as [[i ->]|Hm].
     + destruct (is_num n) as [[j ->]|Hn'].
       * cbn. rewrite map_length. destruct (j <? i) eqn:E.
@@ -750,8 +763,21 @@ Proof.
       cbn. destruct m; try reflexivity. exfalso. eapply Hm. reflexivity.
   - apply (funrep_typeerr (fun a => ModuleSubSeq a m n)); [reflexivity|eexists; reflexivity].
   - assert (spec_subseq (norm a) (norm m) (norm n) = SErr) as ->.
-    { unfold spec_subseq. destruct (norm a) eqn:E; try reflexivity. exfalso. eapply Hn. reflexivity. }
+    { unfold spec_subseq. destruct (norm a) eqn:E; try reflexivity.
+      - destruct a; cbn in E; try discriminate. + exfalso. eapply Hstr. reflexivity.
+        + pose proof (mk_fun_kind (sort_dedup kv_cmp (map (canon_kv norm) kvs))) as H. rewrite E in H. contradiction.
+      - exfalso. eapply Hn. reflexivity. }
     destruct a; try reflexivity. exfalso. eapply Ht. reflexivity.
+Qed.
+
+Definition subseq_full_statement : Prop :=
+  forall a m n, good a -> allowed (is_funrep a) (spec_subseq (norm a) (norm m) (norm n)) (ModuleSubSeq a m n).
+
+Theorem subseq_string_refuted_lemma : ~ subseq_full_statement.
+Proof.
+  intros H. specialize (H (VStr [97%N; 98%N]) (VNum 1) (VNum 1)).
+  assert (G : good (VStr [97%N; 98%N])) by (split; cbn; auto; repeat split; reflexivity).
+  specialize (H G). cbn in H. destruct H as [(v' & E & _)|[_ (kvs & E)]]; discriminate.
 Qed.
 
 (* ------------------------------------------------------------------ = and # *)
